@@ -313,6 +313,8 @@ type metaRun struct {
 	// older than the bundle's current metadata (delete-files rewrites a bundle under its id)
 	stash    map[int]string
 	useStash bool
+	// label objects of earlier assignments, re-used by later ones
+	labelObjs map[string]*core.Label
 }
 
 func (m *metaRun) bad(sig string, exp, got interface{}, detail string) {
@@ -481,8 +483,20 @@ func (m *metaRun) doStep(st metaStep) {
 		m.update(stores, st)
 	case "setlabel":
 		b := e.newBundle(stores, st.Repo, e.ksuidFor(st.Bundle), nil)
-		l := core.NewLabel(core.LabelDescriptor(model.NewLabelDescriptor(model.LabelName(st.Name),
-			model.LabelContributor(model.Contributor{Name: "v", Email: "v@example.com"}))))
+		// a label object is either fresh, or the one used for the previous assignment of this label (a client
+		// that keeps its objects), possibly after resolving it first
+		lkey := st.Repo + "\x00" + st.Name
+		l := m.labelObjs[lkey]
+		if l == nil || m.stepIdx%2 == 0 {
+			l = core.NewLabel(core.LabelDescriptor(model.NewLabelDescriptor(model.LabelName(st.Name),
+				model.LabelContributor(model.Contributor{Name: "v", Email: "v@example.com"}))))
+		} else if m.stepIdx%4 == 3 {
+			_ = l.DownloadDescriptor(ctx, e.newBundle(stores, st.Repo, "", nil), true)
+		}
+		if m.labelObjs == nil {
+			m.labelObjs = map[string]*core.Label{}
+		}
+		m.labelObjs[lkey] = l
 		if err := l.UploadDescriptor(ctx, b); err != nil {
 			m.bad("setlabel/error", "ok", err.Error(), "")
 		}
